@@ -179,7 +179,10 @@ def run_class(rng, res: CaseResult, cache_kind):
         shared_line = f'    _memo = cached({", ".join(a_)})\n'
         methods = [dict(m, shared_deco=True, bare=False, version=ver, ignore=list(common_ignore)) for m in methods]
         res.count('classes_with_one_decorator_object_for_several_methods')
-    src = 'class K:\n' + shared_line + '    def __init__(self, cache):\n        self.cache = cache\n' + ''.join(method_source(m) for m in methods)
+    all_equal = rng.random() < 0.3
+    eq_lines = '    def __eq__(self, other):\n        return type(other) is type(self)\n    def __hash__(self):\n        return 7\n' if all_equal else ''
+    # (a third of the classes are value objects: all their instances compare equal -- each instance still has its own cache)
+    src = 'class K:\n' + shared_line + '    def __init__(self, cache):\n        self.cache = cache\n' + eq_lines + ''.join(method_source(m) for m in methods)
     # second class: same method names but another version -> must not share entries when using the same own cache
     methods_v = [dict(m, version=('9' if m['version'] != '9' else '8'), bare=False, shared_deco=False) for m in methods]
     derived = rng.random() < 0.5
@@ -196,6 +199,9 @@ def run_class(rng, res: CaseResult, cache_kind):
             cache = tcache.InMemoryCache()
         obj = ns['K'](cache)
         objv = ns['KV'](cache)
+        # a second object of the first class with a cache of ITS OWN
+        tmp2 = Path(tempfile.mkdtemp(prefix='c16b-')) if cache_kind == 'json' else None
+        obj2 = ns['K'](tcache.JsonCache(tmp2) if cache_kind == 'json' else tcache.InMemoryCache())
         model = {}   # (method, version, key) -> value
         seq = []
         seen_spellings = {}
@@ -228,6 +234,13 @@ def run_class(rng, res: CaseResult, cache_kind):
                 res.count('kwonly_default_spellings')
             key, full = canonical_binding(m, args, kwargs)
             mk = (m['name'], m['version'], key)
+            on_second = not use_v and not base_on_derived and rng.random() < 0.2
+            if on_second:
+                target = obj2
+                mk = (m['name'], m['version'], key, 'second object')
+                res.count('calls_on_a_second_object_with_its_own_cache')
+                if all_equal:
+                    res.count('calls_on_a_second_object_that_compares_equal_to_the_first')
             ctrl = rng.random()
             control = {}
             if ctrl < 0.12:
@@ -243,7 +256,7 @@ def run_class(rng, res: CaseResult, cache_kind):
                 if rng.random() < 0.3:
                     control['force_cache'] = True
             n_before = len(execs)
-            call_desc = {'class': 'KV' if use_v else ('K on a KV(K) object' if base_on_derived else 'K'), 'method': m['name'], 'version': m['version'], 'args': args, 'kwargs': kwargs, **control}
+            call_desc = {'class': 'KV' if use_v else ('K on a KV(K) object' if base_on_derived else ('K (second object, own cache)' if on_second else 'K')), 'method': m['name'], 'version': m['version'], 'args': args, 'kwargs': kwargs, **control}
             seq.append(call_desc)
             wit = {'source': src, 'cache': cache_kind, 'calls': seq}
             failing = control == {'force_cache': True} and rng.random() < 0.3
@@ -319,8 +332,9 @@ def run_class(rng, res: CaseResult, cache_kind):
             fulls_seen.setdefault(mk, set()).add(full)
         # entry counts per (method, version)
         groups = {}
-        for (name, ver, key) in model:
-            groups.setdefault((name, ver), set()).add(key)
+        for (name, ver, key, *second) in model:
+            if not second:
+                groups.setdefault((name, ver), set()).add(key)
         for (name, ver), keys in groups.items():
             sub = name if ver is None else f'{name}.{ver}'
             if cache_kind == 'json':
@@ -339,6 +353,8 @@ def run_class(rng, res: CaseResult, cache_kind):
     finally:
         if tmp:
             shutil.rmtree(tmp, ignore_errors=True)
+        if 'tmp2' in locals() and tmp2:
+            shutil.rmtree(tmp2, ignore_errors=True)
 
 
 fulls_seen = {}
